@@ -5,6 +5,7 @@ import Oracle.Avc
 import Oracle.Rtmp
 import Oracle.Flv
 import Oracle.Amf0
+import Oracle.Aac
 
 namespace Oracle
 
@@ -12,7 +13,8 @@ def handlers : List (String × (String → List String → Option String)) := [
   ("avc.", Oracle.Avc.handle),
   ("rtmp.", Oracle.Rtmp.handle),
   ("flv.", Oracle.Flv.handle),
-  ("amf0.", Oracle.Amf0.handle)
+  ("amf0.", Oracle.Amf0.handle),
+  ("adts.", Oracle.Aac.handle), ("asc.", Oracle.Aac.handle), ("aac.", Oracle.Aac.handle)
 ]
 
 def dispatch (op : String) (args : List String) : Option String :=
